@@ -1,4 +1,6 @@
 pub mod c01;
 pub mod c04;
 pub mod c05;
+pub mod c09;
+pub mod c11;
 pub mod c13;
